@@ -885,6 +885,11 @@ class PubKeyV4(PubKey):
         self.keymaterial.parse(packet[:pend])
         del packet[:pend]
 
+        if len(self.__bytearray__()) - len(self.header) != self.header.length:
+            # the key material was not in the form it is written in (an integer padded with zero octets, for instance):
+            # the length in the header follows what will be written, not what was read
+            self.update_hlen()
+
 
 class PrivKeyV4(PrivKey, PubKeyV4):
     __ver__ = 4
